@@ -17,6 +17,12 @@ CLAIMED = {
          'Static: every native PLONK/FRI/Merkle check has an unconditional in-circuit twin fed by the corresponding targets (incl. the variable-degree FRI variant); the in-circuit transcript aligns with the native one; set_proof_with_pis_target/set_verifier_data_target write every target field from the same-named value field; native and target opening sets are flattened in the same order. Equality of the accepted sets is not decided.', '5/C06'),
  'C07': ('per-gate accessor data-flow (typed HIR with gate-local inlining): generator-used wire accessors must reach emitted constraints in each evaluator; cross-evaluator set agreement; branch-balanced counter lint',
          'Static: for all 16 gates, every wire accessor read or written by the gate\'s generators flows into a constraint emitted by each of its evaluators (extension, base/packed, circuit); the evaluators constrain the same accessor set; if/else arms advance the same counters. That the constraints determine the outputs, evaluator value-equality and degrees are not decided.', '5/C07'),
+ 'C09': ('consumer filter-binding analysis, STARK verifier obligation table, transcript rules on the STARK functions, zip-partner length pinning from the STARK entry point, interval abstract interpretation of quotient_degree_factor',
+         'Static: transition/first-row/last-row constraints are multiplied by exactly z_last / L_0 / L_last in both consumers and folded with every alpha; every check of the native STARK verifier exists, is unconditional and fed by the proof; vanishing evaluators always evaluate the STARK constraints (and lookups/CTLs when present); the STARK transcript is complete, ordered and agreed between prover, verifier and circuit; caps/batches handed to FRI are pinned to the instance; a STARK with constraints always has a quotient (interval analysis). Soundness algebra is not decided.', '5/C09'),
+ 'C10': ('consumer-call skeleton extraction and comparison (native vs circuit; against the argument shape), data-flow obligations on each constraint',
+         'Static: native and circuit lookup/CTL evaluators emit the same skeleton of first-row / last-row / transition / all-rows constraints (one reviewed unreachable divergence, O1); the logUp evaluator anchors Z on the first row and updates it with an ALL-rows constraint; every CTL branch has a last-row anchor and a transition; each constraint is fed by the right columns; the CTL equality guard (and circuit twin) runs for every challenge of every CTL. The log-derivative algebra is not decided.', '5/C10'),
+ 'C11': ('twin obligation table for the STARK verifier circuit, transcript alignment, witness-assignment field coverage, variable-degree FRI obligation table, evaluator skeleton agreement',
+         'Static: every native STARK verifier check has an in-circuit twin fed by the corresponding targets; get_challenges_target aligns with the native transcript; set_stark_proof_with_pis_target covers every target and value field; the variable-degree FRI circuit carries every FRI obligation tied to the degree selector; lookup/CTL evaluators agree. Equality of accepted sets is not decided.', '5/C11'),
  'C17': ('grammar extraction of reader/writer pairs from typed HIR (helpers expanded to byte-level primitives), field-order tracing through result literals/constructors, field coverage, registry comparison',
          'Static: all 58 read_*/write_* pairs and 41 serialize/deserialize pairs consume/emit the same primitive grammar; the k-th written item comes from the field the k-th read item ends in; every field of a serialised struct is written (or is reconstructed, reviewed); gate/generator registries enumerate every impl, in the same order on both sides, with distinct ids. Value round-trip and interchangeability of restored circuits are not decided.', '5/C17'),
  'C18': ('interprocedural taint over typed HIR (validators/decoders panic census), type-driven length-pin coverage, validate-before-use ordering',
